@@ -28,7 +28,7 @@ RULE = ('Hypothesis-generated histories over populations of 2-6 recorder handler
         'In ~12% of the cases every direct dispatch is repeated 64-150 times (hot events). Handlers may exist and be registered before the history starts; a strike operation arms a killer and at once dispatches an event killer and victim both listen to; a killer callback may first dispatch another event itself (a dispatch nested in the dispatch) and only then make its victim disappear. The injected ordered set fails like the built-in set when it is changed while being iterated. '
         ''
         'Every third dispatch carries keyword arguments; in a third of the cases every handler gets a weakref.finalize callback (registered after it was added) that dispatches one of its events while the handler dies. '
-        'Non-trivial = a handler died during a dispatch while '
+        'Exceptions the interpreter can only report (raised inside weak-reference callbacks) count as a failed clean-up when they come out of the dispatcher. Non-trivial = a handler died during a dispatch while '
         'its callback for that event had not yet run (exact under injected order). Distinct = sha1 of canonical '
         'JSON.')
 ASSUMPTIONS = [
@@ -531,8 +531,25 @@ class Run:
             self.flags['dispatch_with_death'] += 1
 
     def run(self):
+        import sys
         OrderedSet.run = self
         desper.events.__dict__['set'] = OrderedSet
+        unraisable = []
+        old_hook = sys.unraisablehook
+
+        def hook(u):
+            # an exception inside a weak-reference callback / finalizer cannot propagate: the interpreter only reports
+            # it.  When it comes out of the dispatcher's own clean-up of a dead handler, that clean-up has failed
+            tb, inside = u.exc_traceback, False
+            while tb is not None:
+                if '/desper/' in tb.tb_frame.f_code.co_filename.replace('\\', '/'):
+                    inside = True
+                tb = tb.tb_next
+            if inside:
+                unraisable.append(repr(u.exc_value)[:200])
+            else:
+                old_hook(u)
+        sys.unraisablehook = hook
         try:
             self.d = desper.World() if self.mode else desper.EventDispatcher()
             for i in range(self.n):
@@ -554,7 +571,10 @@ class Run:
                 self.op_dispatch(12 + e, 0)
             if self.pending_violation is not None:
                 raise self.pending_violation
+            if unraisable:
+                self.viol('clean_up_of_a_dead_handler_failed_inside_the_dispatcher', exceptions=unraisable[:3])
         finally:
+            sys.unraisablehook = old_hook
             self.closed = True          # finalizers that run after the case (world torn down) do nothing
             desper.events.__dict__.pop('set', None)
             OrderedSet.run = None
